@@ -83,7 +83,7 @@ void run_case(verif::Src& s, verif::Stats& st, const bool literal)
             outs.emplace_back(v, spk);
             rest -= v;
         }
-        if (s.chance(90) && rest > 10000000) { outs.emplace_back(2000000, sim.keys.Script(SpkType::P2WPKH, 1)); rest -= 2000000; } // a foreign coin usable as external input
+        if (s.chance(150) && rest > 10000000) { outs.emplace_back(2000000, sim.keys.Script(SpkType::P2WPKH, 1)); rest -= 2000000; } // a foreign coin usable as external input
         outs.emplace_back(rest, P2WSH_OP_TRUE);
         auto mtx = ws.MakeTx({coin}, outs);
         VCHECK(mtx.has_value(), "c41.harness", "cannot build funding tx");
@@ -124,8 +124,9 @@ void run_case(verif::Src& s, verif::Stats& st, const bool literal)
     for (unsigned c = 0; c < ncreate && !s.exhausted(); ++c) {
         L = ws.Ledger();
         {
+            // the wallet's view of its coins vs the ledger is C44's subject; here it is only recorded
             std::string diff = ws.CompareWithLedger(L, locked);
-            VCHECK(diff.empty(), "c41.harness", "wallet and ledger disagree before CreateTransaction (C44's subject):", diff);
+            if (!diff.empty()) { st.cls("wallet-view-differs-from-ledger"); st.note("pre-create diff: ", diff); }
         }
         RefUtxo view = WsUtxoWithMempool(L);
         wallet::CCoinControl cc;
@@ -152,7 +153,7 @@ void run_case(verif::Src& s, verif::Stats& st, const bool literal)
                 cc.Select(it->first);
                 preset[it->first] = it->second.value;
             }
-            if (s.chance(50)) {
+            if (s.chance(110)) {
                 // an external input: a confirmed coin of the harness key ring (P2WPKH), with solving data
                 for (auto& [op, coin] : view) {
                     if (coin.spk == sim.keys.Script(SpkType::P2WPKH, 1) && coin.height > 0) {
@@ -188,14 +189,19 @@ void run_case(verif::Src& s, verif::Stats& st, const bool literal)
             bool extracted = ExtractDestination(spk, dest);
             VCHECK(extracted, "c41.harness", "recipient script without destination");
             CAmount amount;
-            switch (s.range<unsigned>(0, 6)) {
+            switch (s.range<unsigned>(0, 7)) {
             case 0: amount = budget / (nr + 1); break;
             case 1: amount = budget / nr + s.range<int>(-2000, 2000); break; // around the whole balance
             case 2: amount = s.pick<CAmount>({294, 330, 546, 547, 1000}); break; // dust-adjacent
             case 3: amount = budget / 50; break;
             case 4: amount = s.range<CAmount>(1000, std::max<CAmount>(2000, budget / 2)); break;
             case 5: amount = budget / (2 * nr); break;
-            default: amount = 100000; break;
+            default: {
+                // just below the value of one wallet coin: the selection can exceed the payment by less than a viable change output
+                amount = 100000;
+                if (!L.spendable.empty()) { auto it = L.spendable.begin(); std::advance(it, s.index(L.spendable.size())); amount = it->second - s.range<int>(0, 700); }
+                break;
+            }
             }
             if (amount < 0) amount = 1000;
             bool sffo = s.chance(70);
@@ -309,7 +315,7 @@ void run_case(verif::Src& s, verif::Stats& st, const bool literal)
         st.mix(uint64_t(tx.vin.size())); st.mix(uint64_t(has_change)); st.mix(uint64_t(nsffo));
         st.note("create#", c, " rate=", rate, " nr=", nr, " sffo=", nsffo, " in=", tx.vin.size(), " change=", has_change, " fee=", fee, " vsize=", vsize, " R=", R);
         // sometimes broadcast it so that the next creation sees unconfirmed change / spent coins; sometimes confirm
-        if (accept_claimed && s.chance(150)) {
+        if (accept_claimed && !has_external && s.chance(150)) { // (CWallet::CommitTransaction requires every input's parent in the wallet)
             CTransactionRef ptx = MakeTransactionRef(tx);
             ws.w->CommitTransaction(ptx);
             auto r2 = ws.Submit(ptx);
